@@ -195,6 +195,36 @@ def run_shard(spec):
                 pass
             if any(v < 0 for v in vals):
                 viol.append(_viol("amount-decoded-as-negative", "8-byte amount %d decodes to %s" % ((1 << 64) - k, vals), {"kind": "edges"}))
+    # the limit on what ONE ordinary transaction hands out: every output in (0, max] and their TOTAL in (0, max] -- with
+    # output lists that repeat an amount, put the big one first / last, or reach the limit only in sum
+    import skepticoin.signing as sg
+    M = ref.MAX_SASHIMI
+    patterns = [[M], [M, 1], [1, M], [M, M], [M // 2, M // 2], [M // 2 + 1, M // 2 + 1], [M // 2, M // 2 + 1], [M // 2 + 1, M // 2],
+                [M // 3 + 1] * 3, [M // 3] * 3, [M] * 3, [1, 1, M - 1], [1, 1, M - 2], [M - 1, 1, 1], [7] * 40, [M // 40 + 1] * 40,
+                [M // 40] * 40, [0, 5], [5, 0], [5, 5, 0]]
+    for _ in range(60):
+        k = rng.choice([2, 3, 5])
+        v = rng.choice([M // k, M // k + 1, M // k - 1, rng.randrange(1, M)])
+        patterns.append([v] * k)
+        patterns.append([v] * (k - 1) + [rng.randrange(1, M)])
+    tx_limit_cases = 0
+    for vals in patterns:
+        tx = dt.Transaction([dt.Input(dt.OutputReference(b"\x21" * 32, 0), sg.SECP256k1Signature(b"\x01" * 64))],
+                            [dt.Output(v, sg.SECP256k1PublicKey(bytes([5 + i % 3]) * 64)) for i, v in enumerate(vals)])
+        n += 1
+        tx_limit_cases += 1
+        try:
+            consensus.validate_non_coinbase_transaction_by_itself(tx)
+            ok = True
+        except Exception:
+            ok = False
+        exp = all(0 < v <= M for v in vals) and 0 < sum(vals) <= M
+        if ok != exp:
+            viol.append(_viol("transaction-amount-limit-differs-from-max-supply", "outputs %s (total %d, maximum %d) are %s by the "
+                              "by-itself validation" % (vals if len(vals) <= 4 else "%d x %d" % (len(vals), vals[0]), sum(vals), M,
+                                                        "accepted" if ok else "refused"), {"kind": "edges"}))
+        if len(viol) > 10:
+            break
     # the schedule AS THE VALIDATOR ENFORCES IT: at every era boundary (and the heights next to it, and random heights) a
     # reward-only block claiming exactly subsidy(h) must pass the reward check and one claiming subsidy(h)+1 must not
     enforced = 0
@@ -242,7 +272,7 @@ def run_shard(spec):
         if not re.search(pat, doc):
             viol.append(_viol("documentation-changed", "docs/params.md no longer states: %s" % name, {"kind": "edges"}))
     return {"evaluations": n, "distinct": len(heights), "violations": viol,
-            "counters": {"edge_heights": len(heights), "history_lane_queries": repeats, "reward_checks_at_probe_heights": enforced, "amount_limit_probe": {str(k): int(v) for k, v in limit_probe.items()},
+            "counters": {"edge_heights": len(heights), "history_lane_queries": repeats, "reward_checks_at_probe_heights": enforced, "transaction_limit_cases": tx_limit_cases, "amount_limit_probe": {str(k): int(v) for k, v in limit_probe.items()},
                          "constants_checked": len(consts)},
             "samples": [{"height": h, "subsidy": f(h)} for h in (0, 1_049_999, 1_050_000, 31_499_999, 31_500_000, (1 << 32) - 1)]}
 
@@ -260,6 +290,7 @@ def finalize(m, tier):
                 "with subsidy(h) and subsidy(h)+1 at every era boundary +-1 and random heights",
         "floors": [("heights_called", c.get("heights_called", 0), NONZERO_HEIGHTS),
                    ("nonzero_heights", c.get("nonzero_heights", 0), NONZERO_HEIGHTS),
-                   ("reward_checks_at_probe_heights", c.get("reward_checks_at_probe_heights", 0), 500)],
+                   ("reward_checks_at_probe_heights", c.get("reward_checks_at_probe_heights", 0), 500),
+                   ("transaction_limit_cases", c.get("transaction_limit_cases", 0), 100)],
         "extra": {"sum_of_subsidies_observed": total},
     }
